@@ -240,3 +240,9 @@ def build(ctx):
 
     obs.append(Obligation("canary.cas", "CANARY (must be refuted): the increment is 1.0001 times the trapezoid of the documented mobility", canary, fs, "CAS", expect=be.REFUTED))
     return obs
+
+
+def bounded(ctx):
+    """pandas containers (label alignment) are outside the array model of the executor: bounded family 'container independence'"""
+    from ..rt import containers
+    return containers.run(['from_table'])
